@@ -105,7 +105,9 @@ func Execute(sc Scenario) (log []gate.Event, key, detail string) {
 	}
 	defer func() { announce.VerifYield = nil }()
 
-	okPeer, noPeer := ids.Peer("rcvgate-ok"), ids.Peer("rcvgate-no")
+	okPeer, noPeer, rePeer := ids.Peer("rcvgate-ok"), ids.Peer("rcvgate-no"), ids.Peer("rcvgate-re")
+	var rcvRef *announce.Receiver // the receiver, for the allow-peer callback that calls back into it
+	reCid := mkCid("re")
 	var h host.Host
 	var selfAllowed []bool // per pubsub message published by the harness: is its sender allowed
 	selfIdx := 0
@@ -118,6 +120,14 @@ func Execute(sc Scenario) (log []gate.Event, key, detail string) {
 				return selfAllowed[selfIdx-1]
 			}
 			return false
+		}
+		if p == rePeer {
+			// an application whose filter un-caches something before it answers: the callback runs on the caller's goroutine,
+			// outside the receiver's critical section
+			if rcvRef != nil {
+				rcvRef.UncacheCid(reCid)
+			}
+			return true
 		}
 		return p == okPeer
 	}
@@ -164,6 +174,7 @@ func Execute(sc Scenario) (log []gate.Event, key, detail string) {
 	if err != nil {
 		return nil, "infra", err.Error()
 	}
+	rcvRef = r
 	if watcher { // the watcher parks at its first hook
 		deadline := time.Now().Add(s.Watchdog)
 		for len(s.ParkedIDs()) == 0 {
@@ -189,7 +200,7 @@ func Execute(sc Scenario) (log []gate.Event, key, detail string) {
 		k := len(calls)
 		ci := cids[s.Rng.Intn(len(cids))]
 		ctx := ctx
-		if sc.Cancels && (op == "directOk" || op == "next") && s.Rng.Intn(2) == 0 {
+		if sc.Cancels && (op == "directOk" || op == "directRe" || op == "next") && s.Rng.Intn(2) == 0 {
 			ctx, c.cancel = context.WithCancel(ctx)
 			ctx = yieldCtx{ctx, func() {
 				if !passthrough {
@@ -208,6 +219,8 @@ func Execute(sc Scenario) (log []gate.Event, key, detail string) {
 				res = errName(r.Close())
 			case "directOk":
 				res = errName(r.Direct(ctx, ci, peer.AddrInfo{ID: okPeer, Addrs: []multiaddr.Multiaddr{pubAddr}}))
+			case "directRe":
+				res = errName(r.Direct(ctx, ci, peer.AddrInfo{ID: rePeer, Addrs: []multiaddr.Multiaddr{pubAddr}}))
 			case "directNo":
 				res = errName(r.Direct(ctx, ci, peer.AddrInfo{ID: noPeer, Addrs: []multiaddr.Multiaddr{pubAddr}}))
 			case "next":
@@ -226,7 +239,7 @@ func Execute(sc Scenario) (log []gate.Event, key, detail string) {
 			s.RecordG(gate.Event{Ev: "ret", P: k, Op: op, R: res})
 		})
 	}
-	ops := []string{"close", "close", "directOk", "directOk", "directOk", "directNo", "next", "next", "uncache"}
+	ops := []string{"close", "close", "directOk", "directOk", "directRe", "directNo", "next", "next", "uncache"}
 	pending := func() []string {
 		mu.Lock()
 		defer mu.Unlock()
@@ -414,6 +427,10 @@ func Run(args []string) *rep.Report {
 	enc := json.NewEncoder(f)
 	events := 0
 	for i := si; i < *count; i += sn {
+		if len(r.Divergences) >= 4 {
+			r.AddExtra("skipped_after_divergences", 1) // the verdict is settled; the remaining scenarios would only cost watchdog time
+			continue
+		}
 		sc := Scenario{Config: *config, Seed: *seed*100019 + int64(i), Calls: 3 + i%6, Publishes: i % 4, Cancels: i%3 == 2}
 		log, key, detail := Execute(sc)
 		r.Eval(true)
